@@ -568,6 +568,8 @@ Definition validate_and_encode (t : top) (v : value) : eres (list Z) :=
 
 (* ---------------------------------------------------------------- what comes back *)
 
+(* [mod 2^32] / [mod 2^64]: what 4 / 8 stored bytes can hold; the identity on genuine bit
+   patterns (norm_float_wf in RoundTripProofs.v) *)
 Definition norm_leaf (t : jty) (f : option bfmt) (nt : bool) (v : value) : value :=
   match t with
   | TNull => VNull
@@ -586,10 +588,10 @@ Definition norm_leaf (t : jty) (f : option bfmt) (nt : bool) (v : value) : value
       | Some BBool => VBool (truthy v)
       | Some BFloat =>
           match to_double v with
-          | EOk b => match round32 b with Some w => VFloat (widen32 w) | None => v end
+          | EOk b => match round32 b with Some w => VFloat (widen32 (w mod 2 ^ 32)) | None => v end
           | _ => v
           end
-      | Some BDouble => match to_double v with EOk b => VFloat b | _ => v end
+      | Some BDouble => match to_double v with EOk b => VFloat (b mod 2 ^ 64) | _ => v end
       | _ => v
       end
   end.
